@@ -1068,7 +1068,12 @@ static void CodeRESTORE(Word Index) {
 
         Old            = FirstSaveState;
         FirstSaveState = Old->Next;
-        if (Old->SavePC != ActPC) {
+        if (Old->SavePC == StructSeg)
+            ; /* saved inside a structure definition: no segment to return to */
+        else if (ActPC == StructSeg) {
+            /* takes effect when the structure definition ends */
+            StructSaveSeg = Old->SavePC;
+        } else if (Old->SavePC != ActPC) {
             ActPC     = Old->SavePC;
             DontPrint = True;
         }
